@@ -187,6 +187,8 @@ fn build_binary_op(
     let (_, type_g, _) = item.generics.split_for_impl();
     let this_ty_ident = &item.ident;
     let this_ty: Type = parse_quote!(#this_ty_ident #type_g);
+    // the result is built as `X::<T> { .. }`: without the arguments rustc would have to infer them through the impls being defined
+    let turbofish = type_g.as_turbofish();
     let generics = expand_self(&item.generics, &this_ty);
     let (impl_g, _, _) = generics.split_for_impl();
     let trait_ = kind.to_path();
@@ -224,7 +226,7 @@ fn build_binary_op(
             impl #impl_g #trait_<#rhs_ty> for #self_ty #wheres {
                 type Output = #this_ty;
                 fn #func_name(self, __rhs: #rhs_ty) -> Self::Output {
-                    #this_ty_ident #ctor_args
+                    #this_ty_ident #turbofish #ctor_args
                 }
             }
         }
@@ -301,6 +303,8 @@ fn build_unary_op(
     let (_, type_g, _) = item.generics.split_for_impl();
     let this_ty_ident = &item.ident;
     let this_ty: Type = parse_quote!(#this_ty_ident #type_g);
+    // the result is built as `X::<T> { .. }`: without the arguments rustc would have to infer them through the impls being defined
+    let turbofish = type_g.as_turbofish();
     let generics = expand_self(&item.generics, &this_ty);
     let (impl_g, _, _) = generics.split_for_impl();
     let trait_ = kind.to_path();
@@ -333,7 +337,7 @@ fn build_unary_op(
             impl #impl_g #trait_ for #self_ty #wheres {
                 type Output = #this_ty;
                 fn #func_name(self) -> Self::Output {
-                    #this_ty_ident #ctor_args
+                    #this_ty_ident #turbofish #ctor_args
                 }
             }
         }
